@@ -32,6 +32,7 @@ def run(repo, run, tier):
     from .c13 import reset_unconditional
     reset_unconditional(repo, run, rule_id="C20.6")
     callbacks_must_run(repo, run, m)
+    first_attempt_uses_given_step(repo, run)
 
 
 def who_calls(repo, run):
@@ -285,3 +286,48 @@ def callbacks_must_run(repo, run, m):
     for j in early:
         run.report("C20.7", DS, j, "`%s` leaves the iteration of the step loop before the callback loop: the step recorded in this iteration (e.g. the one that lands on a terminal "
                                    "event) gets no callback invocation, and the statements between here and the end of the body (the store of the next step size) are skipped" % src(j)[:40])
+
+
+# ------------------------------------------------------------------------------------------------
+def first_attempt_uses_given_step(repo, run):
+    """'a step size assigned by a callback is the one used for the next step': integrate() hands self.dt to the integrator (C20.4, C03.2); the integrator's FIRST
+    attempt must then be made with exactly that step.  (Retries after a rejection may shorten it; a first attempt that is clamped, damped or limited in growth
+    relative to the previous step silently replaces the callback's step.)"""
+    from .. import extract
+    from ..front import positional
+    rid = run.rule("C20.8", "every integrator __call__ makes its first attempt (each self.step(...) call that precedes the step controller) with the step parameter "
+                            "itself: the argument is the parameter or a local whose every definition reaching the call is a plain copy of it", floor=2)
+    for q in (extract.RK + ".__call__", extract.SPLIT + ".__call__"):
+        fn = repo.get(ITY, q)
+        run.analysed_fn(ITY, fn)
+        params = [a.arg for a in fn.args.args]
+        p = params[5]
+        upd = [c for c in ast.walk(fn) if isinstance(c, ast.Call) and dotted(c.func) == "self.update_timestep"]
+        first_upd = min((path_key(c, fn) for c in upd), default=None)
+        calls = [c for c in ast.walk(fn) if isinstance(c, ast.Call) and dotted(c.func) == "self.step"]
+        firsts = [c for c in calls if first_upd is None or path_key(c, fn) < first_upd]
+        if not firsts:
+            raise AnalysisError("%s: no first-attempt self.step(...) call found" % q)
+        stepfn = repo.get(ITY, q.rsplit(".", 1)[0] + ".step")
+        for c in firsts:
+            arg = c.args[4] if len(c.args) > 4 else next((k.value for k in c.keywords if k.arg == [a.arg for a in stepfn.args.args][5]), None)
+            ok, why = False, "is `%s`" % (src(arg)[:60] if arg is not None else None)
+            if isinstance(arg, ast.Name):
+                if arg.id == p:
+                    stores = [n for n in walk_no_nested(fn) if isinstance(n, ast.Name) and n.id == p and isinstance(n.ctx, ast.Store) and path_key(n, fn) < path_key(c, fn)]
+                    ok = not stores
+                    why = "is the parameter, rebound before the call" if stores else why
+                else:
+                    defs = [st for st in walk_no_nested(fn) if isinstance(st, (ast.Assign, ast.AugAssign, ast.For)) and path_key(st, fn) < path_key(c, fn) and any(
+                        isinstance(x, ast.Name) and x.id == arg.id and isinstance(x.ctx, ast.Store) for x in ast.walk(st))]
+                    plain = [st for st in defs if isinstance(st, ast.Assign) and len(st.targets) == 1 and isinstance(st.targets[0], ast.Name) and (
+                        (isinstance(st.value, ast.Name) and st.value.id == p) or
+                        (isinstance(st.value, ast.Call) and fname(st.value) in ("copy", "clone", "asarray") and st.value.args and isinstance(st.value.args[0], ast.Name) and st.value.args[0].id == p))]
+                    ok = bool(defs) and len(plain) == len(defs)
+                    bad = [st for st in defs if st not in plain]
+                    why = "is `%s`, also bound by `%s`" % (arg.id, src(bad[0])[:90]) if bad else why
+            run.judged(rid, "%s: first attempt self.step(..., %s)" % (q, src(arg)[:40] if arg is not None else None), ok=ok)
+            if not ok:
+                run.report("C20.8", ITY, c, "the first attempt of %s is not made with the step it was given (the step argument %s): a step size assigned by a callback (or by "
+                           "the user through dt) is silently replaced before it is tried -- e.g. limited to a multiple of the previous step -- so it is not 'the one used for the "
+                           "next step'" % (q, why))
